@@ -27,4 +27,11 @@ import McpModel.Wire.Props
 import McpModel.Gate.Props
 import McpModel.Resume.Props
 import McpModel.Resume.Witness
+import McpModel.Resume.Accept08
+import McpModel.Resume.Sound08
+import McpModel.Resume.Purge
+import McpModel.Resume.Window
+import McpModel.Resume.Accept10
+import McpModel.Resume.Sound10
+import McpModel.Resume.WitnessBridge
 import McpModel.Order.Props
